@@ -199,6 +199,9 @@ func c13Matchers() []mspec {
 		// an And entered with an empty context whose first member captures and whose second rejects, inside an Or whose
 		// next member accepts without writing that parameter
 		{K: "or", Sub: []mspec{{K: "and", Sub: []mspec{pv1, ha}}, hb}},
+		// a matcher that captures the empty string under the name the router's own {sub:\\d+} uses (the version list has
+		// the empty version: an Accept without the parameter)
+		{K: "hv", Args: []string{"sub", "", "1", ""}},
 		// the func-flavoured constructors
 		{K: "andf", Sub: []mspec{pv1, ha}},
 		{K: "orf", Sub: []mspec{{K: "andf", Sub: []mspec{pv1, ha}}, hb}},
@@ -377,7 +380,7 @@ func c13Job(raw json.RawMessage) (any, error) {
 	accepts := []string{"", "application/json;version=1"}
 	for _, r := range model {
 		if strings.Contains(r.m.String(), "HeaderVersion") {
-			accepts = []string{"", "application/json;version=1", "application/json;version=2", ";;"}
+			accepts = []string{"", "application/json;version=1", "application/json;version=2", ";;", "application/json"}
 		}
 	}
 	for _, host := range []string{"a.com", "b.com", "s.a.com", "A.COM:80"} {
